@@ -53,6 +53,14 @@ CHECKS.update({
    text="Every allocating call of the catalogue has a twin in which its allocation fails; TLC checks on all bounded histories that no vector but the target changes, the target is left unchanged or empty and the heap stays sound; each such case is executed on the real library with the k-th new[] of the call throwing, then every vector is destroyed, the cache drained and the ledger required empty.",
    note="Each catalogue operation performs at most one block allocation, so k=1 is the complete enumeration; only block allocations (operator new[]) are failed."),
 })
+CHECKS.update({
+ "C04": dict(cat="model_checking", sec="5/C04", tech="TLA+ Solver (callback discipline, pointer binding) validated on recorded right-hand-side evaluations in all 11 stepper modes; TLA+ SolverFlow computes the exact solution of a solvable family, replayed on the real solver",
+   text="Every right-hand-side evaluation of real runs is checked by TLC to make exactly the enabled term calls, node-major, with the node's and matrix's/scalar's index and the stepper's time, on the arrays GSL passed; TLC computes the exact flow (values A + B ln2 with exact A, B) for 8 configurations x all 32 switch sets x durations, and the real solver in each of rk2/rk4/rkf45/rkck/rk8pd adaptive+fixed and msadams must agree to 1e-6 x scale (observed <= 2e-8).",
+   note="Solvable family only (diagonal constant terms with index-dependent integer tables); integration of arbitrary user terms to tolerance is GSL's contract."),
+ "C10": dict(cat="model_checking", sec="5/C10", tech="TLA+ Solver protocol model checked (last-pointer cache as coded, buffer address reuse) with and without the GSL first-call contract; recorded histories validated by SolverTrace; two-segment histories with toggles, zero-length segments and moves compared with the exact SolverFlow",
+   text="TLC proves BindOK/AfterEvolve/SysUnique for all bounded histories under GslContract and exhibits the stale-cache counterexample without it (a latent hazard, monitored); seeded random histories over Evolve/toggle/AnyNumerics/stepper change/move-construct/move-assign/re-initialise are recorded through hooks and every event validated (bindings, clock exactness, bit-identical state and single PreDerive when all terms are off, view = state after Evolve); segment histories are compared with the exact flow and the clock.",
+   note="GslContract is an environment assumption checked on each trace (failure = inconclusive, not a violation)."),
+})
 NA = {}
 def main():
     checks = []
